@@ -594,11 +594,25 @@ fn execute_macro_in(run: &MacroRun, tools: &MacroTools, dir: &Path, extra_hash_s
             }
         }
     }
-    // O5: the same invocation in rustc processes with other hash seeds
-    for hs in extra_hash_seeds {
+    // O5: the same invocation in rustc processes with other hash seeds; the
+    // last one also reads a re-encoded document (permuted members, other white space)
+    for (n, hs) in extra_hash_seeds.iter().enumerate() {
+        if n + 1 == extra_hash_seeds.len() && extra_hash_seeds.len() > 1 {
+            let mut rr = Rng::new(run.seed ^ 0xD0C);
+            if let Some(re) = crate::procsim::reencode_json(&run.doc, &mut rr) {
+                std::fs::write(dir.join("schema.json"), re).map_err(|e| e.to_string())?;
+            }
+        }
         let again = expand(tools, dir, "macro.rs", *hs, manifest)?;
         out.expansions += 1;
-        if again.ok != m.ok || again.stdout != m.stdout {
+        // compare without the include_str! anchor (it embeds the document's bytes,
+        // which legitimately differ for the re-encoded document)
+        let same = again.ok == m.ok
+            && match (expanded_items(&again.stdout), expanded_items(&m.stdout)) {
+                (Ok(a), Ok(b)) => a == b,
+                _ => !m.ok, // a failed expansion prints no complete crate; the verdict (ok flag) is what is compared
+            };
+        if !same {
             out.violations.push(MacroViolation {
                 oracle: "O5".into(),
                 key: if aliasing {
